@@ -144,9 +144,63 @@ func (s *templateSite) addArg(info *types.Info, a ast.Expr) {
 		}
 		return e
 	}
+	// the bindings may be put into a local map one by one (`args := snippet.Args{}; args["Type"] = …; c.RenderT(t, args)`):
+	// stores with a constant key that every path to the call passes are entries of the literal; any other use of the
+	// map (handed to another function, deleted from, stored into under a computed key or on a branch) leaves the
+	// bindings open
+	var stored []ast.Expr
+	if id, isID := a.(*ast.Ident); isID && s.F != nil && s.F.Root().Body != nil && s.Call != nil {
+		if v, isVar := info.Uses[id].(*types.Var); isVar && !v.IsField() && core.NamedTypeName(v.Type()) == snippetFn("Args") {
+			body := s.F.Root().Body
+			callPath := core.PathTo(body, s.Call)
+			onPath := map[ast.Node]bool{}
+			for _, n := range callPath {
+				onPath[n] = true
+			}
+			open := false
+			ast.Inspect(body, func(n ast.Node) bool {
+				uid, ok := n.(*ast.Ident)
+				if !ok || info.Uses[uid] != types.Object(v) || uid == id {
+					return true
+				}
+				// the use must be the map operand of an unconditional store before the call
+				up := core.PathTo(body, uid)
+				okUse := false
+				if len(up) >= 3 {
+					if ix, isIx := up[len(up)-2].(*ast.IndexExpr); isIx && ix.X == ast.Expr(uid) {
+						if as, isAs := up[len(up)-3].(*ast.AssignStmt); isAs && len(as.Lhs) == 1 && len(as.Rhs) == 1 && as.Lhs[0] == ast.Expr(ix) && as.Tok == token.ASSIGN && as.End() <= s.Call.Pos() && len(up) >= 4 {
+							if blk, isBlk := up[len(up)-4].(*ast.BlockStmt); isBlk && onPath[blk] {
+								if _, isC := core.ConstString(info, ix.Index); isC {
+									stored = append(stored, &ast.KeyValueExpr{Key: ix.Index, Colon: as.TokPos, Value: as.Rhs[0]})
+									okUse = true
+								}
+							} else if cc, isCC := up[len(up)-4].(*ast.CaseClause); isCC && onPath[cc] {
+								if _, isC := core.ConstString(info, ix.Index); isC {
+									stored = append(stored, &ast.KeyValueExpr{Key: ix.Index, Colon: as.TokPos, Value: as.Rhs[0]})
+									okUse = true
+								}
+							}
+						}
+					}
+				}
+				if !okUse {
+					open = true
+				}
+				return true
+			})
+			if open {
+				stored = nil
+				s.OpenArgs = true
+			}
+		}
+	}
 	a = ast.Unparen(resolve(a))
 	if cl, ok := a.(*ast.CompositeLit); ok && core.NamedTypeName(info.TypeOf(cl)) == snippetFn("Args") {
-		for _, el := range cl.Elts {
+		elts := cl.Elts
+		if len(stored) > 0 {
+			elts = append(append([]ast.Expr(nil), cl.Elts...), stored...)
+		}
+		for _, el := range elts {
 			kv, ok := el.(*ast.KeyValueExpr)
 			if !ok {
 				s.OpenArgs = true
